@@ -558,9 +558,20 @@ class World:
 		self.patch(ctrl_if, "time", tm)
 		self.patch(udp_link, "socket", SimSocketModule(net))
 		self.patch(fake_trx, "select", SelectSeam(sim, net))
-		self.patch(fake_trx, "random", env)
 		self.patch(fake_trx, "signal", _SignalStub)
-		self.patch(fake_pm, "randint", env.randint)
+		# randomness in the data path: whatever way a toolkit module got hold of the random
+		# module or of its functions, it draws from the seeded env stream.  As a second line of
+		# defence the global PRNG is re-seeded per run as well (only one simulated thread runs at
+		# a time, so even unpatched draws are a pure function of the seed).
+		import random as _random
+		_random.seed(rng_for(self.plan.get("seed") or 0, "global-prng").getrandbits(64))
+		for mod in (fake_trx, fake_pm, transceiver, toolkit.tk("burst_fwd"), toolkit.tk("data_if"), ctrl_if,
+				toolkit.tk("ctrl_if_trx"), toolkit.tk("gsm_shared"), clck_gen, udp_link):
+			if mod.__dict__.get("random") is _random:
+				self.patch(mod, "random", env)
+			for fn in ("randint", "randrange", "choice", "uniform", "getrandbits", "shuffle", "sample"):
+				if fn in mod.__dict__ and mod.__dict__[fn] is getattr(_random, fn, None):
+					self.patch(mod, fn, getattr(env, fn))
 		trx = cfg["trx"]
 		argv = ["fake_trx", "-b", cfg.get("bind_addr", "0.0.0.0"),
 			"-R", trx[0]["addr"], "-P", str(trx[0]["port"]),
